@@ -179,6 +179,17 @@ theorem xpath_filter_faithful (sel : Str) (l : List XNode) (h : filterPart (some
 
 theorem unknown_filter_type_refused (ty : Str) : filterPart (some (.other ty)) = .error .operationError := rfl
 
+/-- get / get-config / dispatch / rpc, for ALL arguments: what is built carries only parameter elements the protocol defines
+    for that call — `target`, `source`, `filter`, `with-defaults`, `config` — each at most once and in the protocol's order. -/
+theorem retrieval_parameter_order (caps : Caps.Caps) (call : Retrieve.Call) (t : XNode) (h : Retrieve.build caps call = .ok t)
+    (hc : RetrieveP.rfcOrder call ≠ []) : (paramNames t).Sublist (RetrieveP.rfcOrder call) :=
+  RetrieveP.parameter_order caps call t h hc
+
+example : (builtText (Retrieve.build (Caps.mk ["urn:ietf:params:netconf:capability:url:1.0?scheme=ftp".toList])
+      (.rpc "cmd".toList (some "running".toList) (some "ftp://h/f".toList) (some (.xpath "/a".toList)) none)))
+    = some "<nc:cmd><nc:target><nc:running/></nc:target><nc:source><nc:url>ftp://h/f</nc:url></nc:source><nc:filter type=\"xpath\" select=\"/a\"/></nc:cmd>".toList := by
+  decide +kernel
+
 example : builtText (Retrieve.build (Caps.mk ["urn:ietf:params:netconf:capability:with-defaults:1.0?basic-mode=explicit&also-supported=report-all,trim".toList])
       (.get (some (.xpath "/a[b=\"x\"]".toList)) (some "trim".toList)))
     = some "<nc:get><nc:filter type=\"xpath\" select=\"/a[b=&quot;x&quot;]\"/><ns0:with-defaults xmlns:ns0=\"urn:ietf:params:xml:ns:yang:ietf-netconf-with-defaults\">trim</ns0:with-defaults></nc:get>".toList := by
